@@ -400,7 +400,7 @@ func (e *Engine) observe() error {
 		}
 		if slabs == 2 {
 			e.Stats.label("multi_slab")
-			if e.curOp != nil && (e.curOp.K == "rem" || e.curOp.K == "remN" || e.curOp.K == "mrem" || e.curOp.K == "mremN" || e.curOp.K == "set" || e.curOp.K == "mset") {
+			if e.curOp != nil && (e.curOp.K == "rem" || e.curOp.K == "remN" || e.curOp.K == "mrem" || e.curOp.K == "mremN" || e.curOp.K == "set" || e.curOp.K == "mset" || e.curOp.K == "setN" || e.curOp.K == "mupdN") {
 				e.Stats.label("shrink_or_overwrite_in_multi_slab")
 			}
 			if e.Stats.pendingDecodedMutation && e.curOp != nil && isMutation(e.curOp.K) {
@@ -442,7 +442,7 @@ func (e *Engine) observe() error {
 
 func isMutation(k string) bool {
 	switch k {
-	case "app", "ins", "set", "rem", "pop", "appN", "remN", "grow", "mgrow", "mset", "mrem", "mpop", "msetN", "mremN", "styp":
+	case "app", "ins", "set", "rem", "pop", "appN", "remN", "setN", "mupdN", "grow", "mgrow", "mset", "mrem", "mpop", "msetN", "mremN", "styp":
 		return true
 	}
 	return false
